@@ -102,6 +102,9 @@ def make_specs(ctx, purpose='c09'):
         for korder in (perms if not quick or len(perms) == 1 else rng.sample(perms, 2)):
             add(17, 40, subset, korder=korder, AB=True, conformity=True, velbias=True, rsd=rng.random() < .5,
                 Nthread=rng.choice([1, 3, 16]))
+    # galaxies exactly on the faces of the box in redshift space (no velocity bias: the galaxy velocity is the host's / particle's)
+    for subset in (('LRG',), ('ELG', 'QSO'), TRACERS):
+        add(17, 60, subset, faces=True, rsd=True, velbias=False, Nthread=rng.choice([1, 3, 16]))
     # degenerate sizes
     for (H, P) in sizes_small[:3]:
         for subset in (('LRG',), ('ELG', 'QSO'), TRACERS):
@@ -204,6 +207,30 @@ def build_case(spec):
     case = dict(spec=spec, halo=hd, part=pd, tracers=tracers, params=params, enable_ranks=bool(spec['ranks']),
                 rsd=bool(spec['rsd']), Nthread=int(spec['Nthread']))
     place_randoms(case, np.random.default_rng([spec['seed'] % (2 ** 32), spec['idx'], 910]))
+    if spec.get('observer_on_host') and H >= 1:
+        # light cone with the observer exactly on a selected host (and on its particles): the line of sight of that object is
+        # undefined (the kernels return NaN coordinates for it), but every OTHER row, the counts and the row order must not depend
+        # on it or on the thread count
+        hd['hmass'][0] = 10 ** 14.5
+        hd['hrandoms'][0] = 1e-6
+        sel = pd['pinds'] == 0
+        pd['ppos'][sel] = hd['hpos'][0]
+        pd['phmass'][sel] = hd['hmass'][0]
+        pd['prandoms'][sel] = 1e-7
+        params['origin'] = hd['hpos'][0].copy()
+    if spec.get('faces') and H >= 6:
+        # selected galaxies whose redshift-space coordinate z + v_z / velz2kms is EXACTLY -L/2 or +L/2 (a host at rest on the
+        # lower face, one falling onto it, one moving onto the upper face): the result has to lie in the half-open [-L/2, L/2)
+        vz2k = params['velz2kms']
+        for i, (z0, vz) in enumerate(((-L / 2, 0.0), (-L / 2 + 1.0, -vz2k), (L / 2 - 1.0, vz2k), (L / 2 - 0.5, vz2k / 2),
+                                      (-L / 2 + 0.5, -vz2k / 2), (L / 2 - 2.0, 2 * vz2k))):
+            hd['hpos'][i, 2], hd['hvel'][i, 2] = z0, vz
+            hd['hmass'][i] = 10 ** 14.5
+            hd['hrandoms'][i] = 1e-6
+            sel = pd['pinds'] == i
+            pd['ppos'][sel, 2], pd['pvel'][sel, 2], pd['phvel'][sel, 2] = z0, vz, vz
+            pd['phmass'][sel] = hd['hmass'][i]
+            pd['prandoms'][sel] = 1e-7
     return case
 
 
